@@ -10,11 +10,15 @@
                        peak_chan d unw t = Some b  ->  Legal d b (chans_of d unw t)
      chans_of_accepted : same hypotheses -> legal_chans d unw t (chans_of d unw t) = true.
 
+     get_template_ok / chans_of_legal_wf / chans_of_legal_distinct : the first hypothesis is derived from explicit
+                       well-formedness (template present, n_channels columns, |py| = |shanks| = n_channels, no earlier
+                       channel at the peak's position -- implied by Corr.distinct_ok).
+
    The selection S of lg_count is the model's own `closest` list: closest_Nearest shows that the first n_keep
    entries of the stable argsort of the distances are a Nearest selection (sorted-prefix structure of isort:
    sp_cut). *)
 From Coq Require Import ZArith List Lia Bool Arith Permutation Sorted.
-From PV Require Import Base.NpSearch Base.NpSort C08.Model C08.Spec C08.Proofs C08.Corr C08.LinkTie.
+From PV Require Import Base.NpSearch Base.NpSort C08.Model C08.Spec C08.Proofs C08.Proofs2 C08.Corr C08.LinkTie.
 Import ListNotations.
 Open Scope Z_scope.
 
@@ -462,4 +466,240 @@ Proof.
   split; [exact (chans_of_legal ex_line false 0 tp 8%nat Hg Hrows Hpy Hsh Hp)|].
   split; [exact (chans_of_accepted ex_line false 0 tp 8%nat Hg Hrows Hpy Hsh Hp)|].
   vm_compute. reflexivity.
+Qed.
+
+(* ---------- get_template does not raise on a well-formed data set ---------- *)
+Lemma argmax_from_range l i bi best :
+  argmax_from l i bi best = bi \/ (i <= argmax_from l i bi best < i + length l)%nat.
+Proof.
+  revert i bi best; induction l as [|x r IH]; intros i bi best; cbn [argmax_from length]; [left; reflexivity|].
+  destruct (best <? x).
+  - destruct (IH (S i) i x) as [H|H]; right; lia.
+  - destruct (IH (S i) bi best) as [H|H]; [left; exact H|right; lia].
+Qed.
+
+Lemma argmax_lt l b : argmax l = Some b -> (b < length l)%nat.
+Proof.
+  destruct l as [|x r]; [discriminate|]. cbn [argmax length]. intros H; injection H as <-.
+  destruct (argmax_from_range r 1 0 x) as [H|H]; lia.
+Qed.
+
+Lemma dists_nonneg d b : Forall (fun z => 0 <= z) (dists_from d b).
+Proof.
+  unfold dists_from. destruct (nth_error (d_px d) b) as [x0|]; [|constructor].
+  destruct (nth_error (d_py d) b) as [y0|]; [|constructor].
+  generalize (d_py d). induction (d_px d) as [|x px IH]; intros [|y py]; cbn [map zip_with]; constructor; [|apply IH].
+  pose proof (Z.square_nonneg (x - x0)). pose proof (Z.square_nonneg (y - y0)). lia.
+Qed.
+
+Lemma zip_nth (f g : Z -> Z) px py b x0 y0 : nth_error px b = Some x0 -> nth_error py b = Some y0 ->
+  nth b (zip_with Z.add (map f px) (map g py)) (-1) = f x0 + g y0.
+Proof.
+  revert px py; induction b as [|b IH]; intros [|x px] [|y py]; cbn [nth_error]; try discriminate.
+  - intros H1 H2. injection H1 as ->. injection H2 as ->. reflexivity.
+  - intros H1 H2. cbn [map zip_with nth]. apply IH; assumption.
+Qed.
+
+Lemma dists_self d b : (b < n_channels d)%nat -> length (d_py d) = n_channels d -> nth b (dists_from d b) (-1) = 0.
+Proof.
+  intros Hb Hpy. unfold dists_from, n_channels in *.
+  destruct (nth_error (d_px d) b) as [x0|] eqn:Ex; [|apply nth_error_None in Ex; lia].
+  destruct (nth_error (d_py d) b) as [y0|] eqn:Ey; [|apply nth_error_None in Ey; lia].
+  rewrite (zip_nth _ _ _ _ _ _ _ Ex Ey). rewrite !Z.sub_diag. reflexivity.
+Qed.
+
+Lemma filter_eqk_first (dd : list Z) a b : (b < length dd)%nat -> nth b dd (-1) = 0 ->
+  (forall i, (i < b)%nat -> nth i dd (-1) <> 0) ->
+  exists r, filter (eqk 0) (combine dd (seq a (length dd))) = (0, (a + b)%nat) :: r.
+Proof.
+  revert a b; induction dd as [|x dd IH]; intros a b Hb H0 Hf; cbn [length] in Hb; [lia|].
+  cbn [length seq combine filter]. unfold eqk at 1. cbn [fst]. destruct b as [|b].
+  - cbn [nth] in H0. subst x. rewrite Z.eqb_refl, Nat.add_0_r. eexists; reflexivity.
+  - assert (Hx : x <> 0) by (apply (Hf 0%nat); lia).
+    replace (x =? 0) with false by lia.
+    destruct (IH (S a) b) as [r Hr]; [lia|exact H0|intros i Hi; apply (Hf (S i)); lia|].
+    exists r. rewrite Hr. f_equal. f_equal. lia.
+Qed.
+
+(* stability: the first entry of the stable argsort of non-negative keys is the FIRST position holding key 0 *)
+Lemma sp_head dd b : Forall (fun z => 0 <= z) dd -> (b < length dd)%nat -> nth b dd (-1) = 0 ->
+  (forall i, (i < b)%nat -> nth i dd (-1) <> 0) -> exists r, sorted_pairs dd = (0, b) :: r.
+Proof.
+  intros Hnn Hb H0 Hf.
+  assert (Hin : In (0, b) (sorted_pairs dd)) by (apply sp_in; split; [exact Hb|symmetry; exact H0]).
+  assert (Hall : forall v j, In (v, j) (sorted_pairs dd) -> 0 <= v).
+  { intros v j H. apply sp_in in H. destruct H as [Hl ->]. rewrite Forall_forall in Hnn. apply Hnn, nth_In. exact Hl. }
+  pose proof (isort_stable 0 (combine dd (seq 0 (length dd)))) as Hst. fold (sorted_pairs dd) in Hst.
+  destruct (filter_eqk_first dd 0 b Hb H0 Hf) as [r0 Hr0]. rewrite Hr0 in Hst. cbn [Nat.add] in Hst.
+  pose proof (isort_sorted (combine dd (seq 0 (length dd)))) as Hso. fold (sorted_pairs dd) in Hso.
+  remember (sorted_pairs dd) as s eqn:Es. destruct s as [|[v j] r]; [destruct Hin|].
+  assert (Hv : v = 0).
+  { pose proof (Hall v j (or_introl eq_refl)) as Hge. destruct Hin as [E|Hin]; [injection E; lia|].
+    pose proof (sortedk_ge (v, j) r (0, b) Hso Hin) as H. cbn [fst] in H. lia. }
+  subst v. rewrite filter_cons_eq in Hst by reflexivity. injection Hst as Hj _. subst j. exists r. reflexivity.
+Qed.
+
+Lemma closest_ok d b : (b < n_channels d)%nat -> length (d_py d) = n_channels d ->
+  (forall i, (i < b)%nat -> nth i (dists_from d b) (-1) <> 0) ->
+  exists close, closest (d_px d) (d_py d) b = Some close /\ In (Z.of_nat b) close.
+Proof.
+  intros Hb Hpy Hf. destruct (cut_of_is_kth d b Hb Hpy) as (_ & _ & Hlen).
+  assert (Hb' : (b < length (dists_from d b))%nat) by lia.
+  destruct (sp_head (dists_from d b) b (dists_nonneg d b) Hb' (dists_self d b Hb Hpy) Hf) as [r Hr].
+  assert (Hsa : stable_argsort (dists_from d b) = b :: map snd r) by (rewrite sa_eq, Hr; reflexivity).
+  revert Hsa. unfold closest, dists_from, n_channels in *.
+  destruct (nth_error (d_px d) b) as [x0|] eqn:Ex; [|apply nth_error_None in Ex; lia].
+  destruct (nth_error (d_py d) b) as [y0|] eqn:Ey; [|apply nth_error_None in Ey; lia].
+  cbv zeta. intros Hsa. rewrite Hsa. change (n_closest_channels =? 0) with false. cbv iota.
+  change (Z.to_nat n_closest_channels) with 12%nat. cbn [map firstn]. rewrite Z.eqb_refl.
+  eexists. split; [reflexivity|left; reflexivity].
+Qed.
+
+Theorem fbc_ok d x b :
+  Forall (fun row => length row = n_channels d) x ->
+  length (d_py d) = n_channels d -> length (d_shanks d) = n_channels d ->
+  peak_of x = Some b -> (forall i, (i < b)%nat -> nth i (dists_from d b) (-1) <> 0) ->
+  exists chans, find_best_channels d x = Some (chans, Z.of_nat b).
+Proof.
+  intros Hrows Hpy Hsh. unfold peak_of, find_best_channels.
+  destruct (col_fold Z.max x) as [mx|] eqn:Emx; [|discriminate].
+  destruct (col_fold Z.min x) as [mn|] eqn:Emn; [|discriminate].
+  cbv zeta. intros Hp Hf. rewrite Hp.
+  assert (Hamp : length (zip_with Z.sub mx mn) = n_channels d).
+  { rewrite zip_with_length, (col_fold_length _ _ _ _ Emx Hrows), (col_fold_length _ _ _ _ Emn Hrows). lia. }
+  pose proof (argmax_lt _ _ Hp) as Hb. rewrite Hamp in Hb.
+  destruct (nth_error (zip_with Z.sub mx mn) b) as [max_amp|] eqn:En; [|apply nth_error_None in En; lia].
+  destruct (closest_ok d b Hb Hpy Hf) as (close & Hcl & Hbin). rewrite Hcl.
+  replace (memZ (Z.of_nat b) close) with true by (symmetry; apply memZ_In; exact Hbin). cbn [negb].
+  destruct (nth_error (d_shanks d) b) as [shank|] eqn:Esh; [|apply nth_error_None in Esh; lia].
+  match goal with |- context [memZ (Z.of_nat b) ?o] => replace (memZ (Z.of_nat b) o) with true end.
+  - eexists; reflexivity.
+  - symmetry. apply memZ_In. apply ordered_in. split; [|rewrite Hamp; lia].
+    apply intersect1d_in. split; [apply peak_in; [exact (col_amp_nonneg x mx mn Emx Emn)|rewrite Hamp; lia]|].
+    apply intersect1d_in. split; [exact Hbin|]. apply on_shank_in. split; [lia|].
+    rewrite Nat2Z.id. apply nth_error_nth. exact Esh.
+Qed.
+Print Assumptions fbc_ok.
+
+(* well-formedness => get_template returns a template, whose best channel is the peak *)
+Theorem get_template_ok (d : dset) (unw : bool) (t : nat) (tw x : list (list Z)) (b : nat) :
+  nth_error (d_tmpl d) t = Some tw -> (if unw then unwhiten (d_wmi d) tw else Some tw) = Some x ->
+  Forall (fun row => length row = n_channels d) x ->
+  length (d_py d) = n_channels d -> length (d_shanks d) = n_channels d ->
+  peak_of x = Some b -> (forall i, (i < b)%nat -> nth i (dists_from d b) (-1) <> 0) ->
+  exists tp, get_template d t unw = Some tp /\ t_best tp = Z.of_nat b.
+Proof.
+  intros Ht Hx Hrows Hpy Hsh Hp Hf. unfold get_template. rewrite Ht, Hx.
+  destruct (fbc_ok d x b Hrows Hpy Hsh Hp Hf) as [chans Hc]. rewrite Hc.
+  destruct (fbc_legal d x chans _ b Hc Hp Hrows Hpy Hsh) as [HL _].
+  rewrite (omap_all_some _ (fun row => map (fun ch => nth (Z.to_nat ch) row 0) chans)).
+  - eexists; split; reflexivity.
+  - intros row Hrow. apply gather_map_ok. intros ch Hch.
+    pose proof (lg_chan d b chans HL ch Hch) as Hc'. unfold is_chan in Hc'.
+    rewrite Forall_forall in Hrows. pose proof (Hrows row Hrow) as Hl.
+    split; [lia|]. apply nth_error_nth'. lia.
+Qed.
+Print Assumptions get_template_ok.
+
+(* the full statement from explicit well-formedness hypotheses only *)
+Theorem chans_of_legal_wf (d : dset) (unw : bool) (t : nat) (tw x : list (list Z)) (b : nat) :
+  nth_error (d_tmpl d) t = Some tw -> (if unw then unwhiten (d_wmi d) tw else Some tw) = Some x ->
+  Forall (fun row => length row = n_channels d) x ->
+  length (d_py d) = n_channels d -> length (d_shanks d) = n_channels d ->
+  peak_of x = Some b -> (forall i, (i < b)%nat -> nth i (dists_from d b) (-1) <> 0) ->
+  peak_chan d unw t = Some b /\ In (Z.of_nat b) (chans_of d unw t) /\
+  Legal d b (chans_of d unw t) /\ legal_chans d unw t (chans_of d unw t) = true.
+Proof.
+  intros Ht Hx Hrows Hpy Hsh Hp Hf.
+  destruct (get_template_ok d unw t tw x b Ht Hx Hrows Hpy Hsh Hp Hf) as (tp & Hg & _).
+  assert (Htm : tmpl_of d unw t = x).
+  { unfold tmpl_of. rewrite Ht. destruct unw; [rewrite Hx; reflexivity|injection Hx as <-; reflexivity]. }
+  assert (Hpc : peak_chan d unw t = Some b) by (rewrite peak_chan_eq, Htm; exact Hp).
+  rewrite <- Htm in Hrows.
+  pose proof (chans_of_legal d unw t tp b Hg Hrows Hpy Hsh Hpc) as HL.
+  split; [exact Hpc|]. split; [exact (lg_peak _ _ _ HL)|]. split; [exact HL|].
+  exact (chans_of_accepted d unw t tp b Hg Hrows Hpy Hsh Hpc).
+Qed.
+Print Assumptions chans_of_legal_wf.
+
+Example ex_line_wf :
+  nth_error (d_tmpl ex_line) 0 = Some (tmpl_of ex_line false 0) /\
+  peak_of (tmpl_of ex_line false 0) = Some 8%nat /\
+  (forall i, (i < 8)%nat -> nth i (dists_from ex_line 8) (-1) <> 0) /\
+  Legal ex_line 8 (chans_of ex_line false 0).
+Proof.
+  assert (Ht : nth_error (d_tmpl ex_line) 0 = Some (tmpl_of ex_line false 0)) by (vm_compute; reflexivity).
+  assert (Hp : peak_of (tmpl_of ex_line false 0) = Some 8%nat) by (vm_compute; reflexivity).
+  assert (Hf : forall i, (i < 8)%nat -> nth i (dists_from ex_line 8) (-1) <> 0).
+  { intros i Hi. do 8 (destruct i as [|i]; [vm_compute; discriminate|]). lia. }
+  split; [exact Ht|]. split; [exact Hp|]. split; [exact Hf|].
+  refine (proj1 (proj2 (proj2 (chans_of_legal_wf ex_line false 0 _ _ 8%nat Ht eq_refl _ _ _ Hp Hf)))).
+  - vm_compute; repeat constructor.
+  - vm_compute; reflexivity.
+  - vm_compute; reflexivity.
+Qed.
+
+(* ---------- the "no earlier channel at the peak's position" hypothesis from Corr.distinct_ok ---------- *)
+Lemma distinct_ok_dist d b i : distinct_ok d = true -> (b < n_channels d)%nat -> length (d_py d) = n_channels d ->
+  i <> b -> nth i (dists_from d b) (-1) <> 0.
+Proof.
+  intros Hd Hb Hpy Hne H0.
+  unfold distinct_ok in Hd. rewrite forallb_forall in Hd. specialize (Hd b). rewrite in_seq in Hd.
+  specialize (Hd (conj (Nat.le_0_l b) Hb)). rewrite sorted_dists_eq in Hd.
+  destruct (cut_of_is_kth d b Hb Hpy) as (_ & _ & Hlen).
+  assert (Hi : (i < length (dists_from d b))%nat).
+  { destruct (le_lt_dec (length (dists_from d b)) i) as [Hge|Hlt]; [|exact Hlt].
+    rewrite nth_overflow in H0 by exact Hge. discriminate. }
+  assert (Hin_i : In (0, i) (sorted_pairs (dists_from d b))) by (apply sp_in; split; [exact Hi|symmetry; exact H0]).
+  assert (Hin_b : In (0, b) (sorted_pairs (dists_from d b))).
+  { apply sp_in. split; [lia|]. symmetry. apply dists_self; assumption. }
+  pose proof (isort_sorted (combine (dists_from d b) (seq 0 (length (dists_from d b))))) as Hso.
+  fold (sorted_pairs (dists_from d b)) in Hso.
+  remember (sorted_pairs (dists_from d b)) as s eqn:Es.
+  destruct s as [|[v0 j0] [|[v1 j1] r]]; cbn [map fst] in Hd.
+  - destruct Hin_i.
+  - destruct Hin_i as [Ei|[]]. destruct Hin_b as [Eb|[]]. congruence.
+  - apply andb_true_iff in Hd. destruct Hd as [_ Hv1].
+    assert (Htail : forall p, In p ((v1, j1) :: r) -> 0 < fst p).
+    { intros p [<-|Hp]; [cbn [fst]; lia|].
+      pose proof (sortedk_ge (v1, j1) r p (sortedk_tail _ _ Hso) Hp) as Hge. cbn [fst] in Hge. lia. }
+    destruct Hin_i as [Ei|Hi']; [|apply Htail in Hi'; cbn [fst] in Hi'; lia].
+    destruct Hin_b as [Eb|Hb']; [|apply Htail in Hb'; cbn [fst] in Hb'; lia].
+    congruence.
+Qed.
+
+(* the model's list is Legal and accepted on every data set with pairwise distinct channel positions
+   (Corr.distinct_ok, part of the comparator's regime test) and well-shaped arrays *)
+Theorem chans_of_legal_distinct (d : dset) (unw : bool) (t : nat) (tw x : list (list Z)) (b : nat) :
+  nth_error (d_tmpl d) t = Some tw -> (if unw then unwhiten (d_wmi d) tw else Some tw) = Some x ->
+  Forall (fun row => length row = n_channels d) x ->
+  length (d_py d) = n_channels d -> length (d_shanks d) = n_channels d ->
+  distinct_ok d = true -> peak_of x = Some b ->
+  peak_chan d unw t = Some b /\ In (Z.of_nat b) (chans_of d unw t) /\
+  Legal d b (chans_of d unw t) /\ legal_chans d unw t (chans_of d unw t) = true.
+Proof.
+  intros Ht Hx Hrows Hpy Hsh Hd Hp.
+  apply (chans_of_legal_wf d unw t tw x b Ht Hx Hrows Hpy Hsh Hp).
+  intros i Hi. apply distinct_ok_dist; try assumption; [|lia].
+  unfold peak_of in Hp.
+  destruct (col_fold Z.max x) as [mx|] eqn:Emx; [|discriminate].
+  destruct (col_fold Z.min x) as [mn|] eqn:Emn; [|discriminate].
+  apply argmax_lt in Hp.
+  rewrite zip_with_length, (col_fold_length _ _ _ _ Emx Hrows), (col_fold_length _ _ _ _ Emn Hrows) in Hp. lia.
+Qed.
+Print Assumptions chans_of_legal_distinct.
+
+Example ex_line_distinct :
+  distinct_ok ex_line = true /\ boundary_ok ex_line = false /\
+  legal_chans ex_line false 0 (chans_of ex_line false 0) = true.
+Proof.
+  assert (Hd : distinct_ok ex_line = true) by (vm_compute; reflexivity).
+  split; [exact Hd|]. split; [vm_compute; reflexivity|].
+  refine (proj2 (proj2 (proj2 (chans_of_legal_distinct ex_line false 0 (tmpl_of ex_line false 0) _ 8%nat
+                                 _ eq_refl _ _ _ Hd _)))).
+  - vm_compute; reflexivity.
+  - vm_compute; repeat constructor.
+  - vm_compute; reflexivity.
+  - vm_compute; reflexivity.
+  - vm_compute; reflexivity.
 Qed.
